@@ -111,16 +111,34 @@ def run(tier, seed):
     absorb(run, "native", rc, out, err, wall)
     run.exhaustive = True
     # 2. Miri
-    seeds = "0..2" if q else "0..32"
+    # one process per Miri scheduler seed, each with its own watchdog: the interpreter's random preemption makes the
+    # running time of a seed vary widely, and a seed that overruns is inconclusive, not a failure
+    nseeds = 2 if q else 32
     margs = ["all", "--seed", str(seed), "--maxlen", "2", "--random", "20" if q else "60", "--len", "40", "--thread-reps", "1",
              "--rounds", "3", "--ops-per-round", "30" if q else "60", "--max-threads", "4" if q else "8"]
-    rc, out, err, wall = sh(["cargo", "+nightly", "miri", "run", "--offline", "-p", "allocmon", "--target-dir",
-                             os.path.join(TARGET, "miri"), "--"] + margs,
-                            {"MIRIFLAGS": "-Zmiri-many-seeds=%s" % seeds}, timeout=7200)
-    if "error: Undefined Behavior" not in err and "Data race" not in err and not parse_reports(out):
-        raise HarnessError("miri run failed (harness failure): %s" % err[-2000:])
-    absorb(run, "miri", rc, out, err, wall)
-    run.extra_cov["miri_seeds"] = seeds
+    miri_cmd = ["cargo", "+nightly", "miri", "run", "--offline", "-p", "allocmon", "--target-dir", os.path.join(TARGET, "miri"), "--"] + margs
+
+    def one_seed(ms):
+        try:
+            return (ms,) + sh(miri_cmd, {"MIRIFLAGS": "-Zmiri-seed=%d" % ms}, timeout=600 if q else 2400)
+        except subprocess.TimeoutExpired:
+            return (ms, None, "", "", 0.0)
+    from concurrent.futures import ThreadPoolExecutor
+    first = one_seed(0)                      # builds the interpreter's copy of the crate once
+    with ThreadPoolExecutor(max_workers=max(1, (os.cpu_count() or 2))) as ex:
+        results = [first] + list(ex.map(one_seed, range(1, nseeds)))
+    done = 0
+    for ms, rc, out, err, wall in results:
+        if rc is None:
+            run.inconclusive_event("Miri seed exceeded its watchdog", {"miri_seed": ms})
+            continue
+        if "error: Undefined Behavior" not in err and "Data race" not in err and not parse_reports(out):
+            raise HarnessError("miri run failed (harness failure, seed %d): %s" % (ms, err[-2000:]))
+        absorb(run, "miri", rc, out, err, wall)
+        done += 1
+    if done == 0:
+        raise HarnessError("no Miri seed finished within its watchdog")
+    run.extra_cov["miri_seeds"] = "%d of %d seeds finished" % (done, nseeds)
     # 3. ThreadSanitizer
     build("tsan", ["cargo", "+nightly", "build", "--offline", "-Zbuild-std", "--target", TRIPLE, "-p", "allocmon",
                    "--target-dir", os.path.join(TARGET, "tsan")], {"RUSTFLAGS": "-Zsanitizer=thread"})
